@@ -34,6 +34,9 @@ def replay(pid, path):
     with open(path) as f:
         rp = json.load(f)
     rec = rp["record"]
+    if rec.get("_mode") == "c13":
+        import determinism
+        return determinism.replay(path)
     mode = rec.get("_mode") or MODES.get(pid)
     if not mode:
         print("no replay mode for", pid)
@@ -741,3 +744,10 @@ def c15(run):
 
 
 MODES["C15"] = "imptext"
+
+
+# ------------------------------------------------------------------ C13
+@check("C13")
+def c13(run):
+    import determinism
+    determinism.check(run)
